@@ -123,6 +123,19 @@ def _t_pd_even(n):
     return ('result', ['pd_even', n], ('pd_even', (n,), {}))
 
 
+def _t_pd_span(d):
+    import re
+    if isinstance(d, (int, float)) and not isinstance(d, bool):
+        sec = float(d)
+    elif isinstance(d, str) and re.fullmatch(r'-?P\d+D', d):
+        sec = float(d.replace('-', '').strip('PD')) * 86400.0 * (-1 if d.startswith('-') else 1)
+    else:
+        return ('invalid', None, None)
+    if not sec > 0:
+        return ('invalid', None, None)
+    return ('result', ['pd_span', sec], ('pd_span', (sec,), {}))
+
+
 def _t_js_list(items):
     if not (isinstance(items, list) and all(isinstance(x, str) for x in items)):
         return ('invalid', None, None)
@@ -134,6 +147,7 @@ def _t_ctxm_plain(ctx, a=0): return ('result', [None, a], ('ctxm', (a,), {}))
 
 def _t_cm(a, b=0): return ('result', ['cm', 'ProbeView', a, b], ('view.cm', (a, b), {}))
 def _t_sm(a, b=0): return ('result', ['sm', a, b], ('view.sm', (a, b), {}))
+def _t_note(message, context=None): return ('result', ['note', message, context], ('view.note', (message, context), {}))
 def _t_bump(by=1): return ('result', ['bump', by if isinstance(by, int) and not isinstance(by, bool) else 1], ('cnt.bump', (by,), {}))
 
 
@@ -147,8 +161,8 @@ TWINS = {
     'typed': _t_typed, 'js_checked': _t_js_checked, 'js_loose': _t_js_loose, 'slowfail': _t_slowfail, 'byid': _t_byid, 'wrapped': _t_wrapped, 'whoami': _t_whoami, 'ctxp': _t_ctxp, 'slow': _t_slow, 'fac1': _t_fac1, 'fac2': _t_fac2, 'boom': _t_boom, 'ctxm': _t_ctxm, 'view.vm': _t_vm,
     'typedctor': _t_typedctor, 'raiselib': _t_raiselib, 'pd_pos': _t_pd_pos, '_under': _t_under, 'ns._dotted': _t_dotted,
     'cowrapped': _t_cowrapped, 'js_draft4': _t_js_draft4, 'window': _t_window, 'mutate': _t_mutate, 'broken.vm': _t_broken,
-    'odd_defaults': _t_odd_defaults, 'tc_only': _t_tc_only, 'pd_strip': _t_pd_strip, 'view.cm': _t_cm, 'view.sm': _t_sm, 'cnt.bump': _t_bump,
-    'pd_even': _t_pd_even, 'js_list': _t_js_list, 'ctxm_plain': _t_ctxm_plain,
+    'odd_defaults': _t_odd_defaults, 'tc_only': _t_tc_only, 'pd_strip': _t_pd_strip, 'view.cm': _t_cm, 'view.sm': _t_sm, 'view.note': _t_note, 'cnt.bump': _t_bump,
+    'pd_even': _t_pd_even, 'pd_span': _t_pd_span, 'js_list': _t_js_list, 'ctxm_plain': _t_ctxm_plain,
 }
 
 
